@@ -1,5 +1,5 @@
 (* Extraction of the step file model.  ExtrOcamlBasic only. *)
 From Coq Require Import Extraction ExtrOcamlBasic.
-From Robsd Require Import Step.StepDefs Step.StepSpec.
+From Robsd Require Import Step.StepDefs Step.StepSpec Step.StepFault Step.StepNameSpec.
 Extraction Language OCaml.
-Extraction "st_model.ml" write_cmd read_cmd parse_file header spec_ok_history spec_nrows.
+Extraction "st_model.ml" write_cmd write_cmdk read_cmd parse_file row_id header spec_ok_history spec_ok_names spec_nrows.
